@@ -150,6 +150,10 @@ impl Builtins {
                         let mut vm =
                             VM::with_pointer(self.strict, op_pointer, base_path)
                                 .with_import_stack(import_stack.clone());
+                        // The one output per file rule is per evaluation of
+                        // the file. It may have been built earlier in this
+                        // same invocation.
+                        env.borrow_mut().reset_out_lock_for_path(&normalized);
                         vm.run(env)?;
                         let result = Rc::new(vm.symbols_to_tuple(true));
                         env.borrow_mut()
